@@ -476,3 +476,12 @@ impl<VM: VMBinding> ConcurrentPlan for ConcurrentImmix<VM> {
         self.concurrent_marking_in_progress()
     }
 }
+
+#[cfg(feature = "mmtk_verif")]
+impl<VM: VMBinding> ConcurrentImmix<VM> {
+    /// Verification hook: the private [`ConcurrentImmix::set_concurrent_marking_state`] (what the
+    /// InitialMark pause does at its end / the FinalMark pause undoes).
+    pub fn verif_set_concurrent_marking_state(&self, active: bool) {
+        self.set_concurrent_marking_state(active)
+    }
+}
